@@ -649,7 +649,7 @@ class EnvelopeSuite(Suite):
     def generate(self, rng, tier):
         thorough = tier == "thorough"
         cases = []
-        n_clean, n_tamper, n_mal, n_sweep, n_cli = (400, 1500, 700, 6, 120) if thorough else (45, 90, 70, 1, 20)
+        n_clean, n_tamper, n_mal, n_sweep, n_cli = (400, 1200, 500, 5, 100) if thorough else (40, 80, 60, 1, 18)
         for _ in range(n_clean):
             cases.append(gen_base(rng, tier))
         for _ in range(n_tamper):
@@ -665,11 +665,13 @@ class EnvelopeSuite(Suite):
         for _ in range(n_cli):
             cases.append(self.gen_cli(rng, tier))
         if thorough:
-            for n in (4194304 - 4096 - 7, 4194304 + 5, 2 * 4194304 + 17, 300000):
+            # payloads around one and two 4 MiB decrypt chunks (the read loop), one tampered
+            for i, n in enumerate((300000, 4194304 - 4096 - 7, 2 * 4194304 + 17)):
                 c = gen_base(rng, tier)
                 c["payload"] = gen_payload(rng, n)
-                cases.append(c)
-                cases.append(gen_tamper(rng, c))
+                cases.insert(i * 30, c)              # spread over different shards
+                if i == 0:
+                    cases.insert(45, gen_tamper(rng, c))
         self.add_hints(cases)
         return cases
 
@@ -1108,7 +1110,7 @@ class KeystoreSuite(Suite):
     per_case_timeout = 30.0
 
     def generate(self, rng, tier):
-        return [gen_keystore(rng, tier) for _ in range(1500 if tier == "thorough" else 130)]
+        return [gen_keystore(rng, tier) for _ in range(900 if tier == "thorough" else 130)]
 
     def impl(self, case):
         from dissect.hypervisor.util.envelope import KeyStore
